@@ -12,9 +12,19 @@ def prepare():
     os.makedirs(os.path.join(BUILD, 'kani-logs'), exist_ok=True)
 
 
+MODS = [('c06_', 'c06'), ('leaf_', 'leaves'), ('c03_r', 'c03_gen'), ('c04_r', 'c04_gen')]
+
+
+def qualify(h):
+    if '::' in h: return h
+    for pre, mod in MODS:
+        if h.startswith(pre): return '%s::%s' % (mod, h)
+    return h
+
+
 def run_one(h, timeout, extra=(), mem_kb=16_000_000, crate=KDIR, target='kani-target'):
     log = os.path.join(BUILD, 'kani-logs', h + '.log')
-    cmd = 'ulimit -v %d; exec timeout %d cargo kani --target-dir %s --harness %s --output-format terse %s' % (mem_kb, timeout, os.path.join(BUILD, target), h, ' '.join(extra))
+    cmd = 'ulimit -v %d; exec timeout %d cargo kani --target-dir %s --harness %s --exact --output-format terse %s' % (mem_kb, timeout, os.path.join(BUILD, target), qualify(h), ' '.join(extra))
     t0 = time.time()
     with open(log, 'w') as f:
         r = subprocess.run(['bash', '-c', cmd], cwd=crate, env=ENV, stdout=f, stderr=subprocess.STDOUT)
